@@ -39,6 +39,31 @@ func (fr *Frame) doCall(site ssa.Instruction, c *ssa.CallCommon) *Val {
 			return fr.applyFieldContract(ct, key, c.Signature(), args)
 		}
 	}
+	// call through a func-typed parameter that the contract ties to the one
+	// closure ever passed for it (`attr callback <param> <closure key>`): the
+	// closure's contract is applied; its free variables are bound to the
+	// caller's variables of the same name (stated in the contract file)
+	if prm, ok := c.Value.(*ssa.Parameter); ok {
+		top := fr.topFrame()
+		if top == fr && top.contract != nil {
+			if cb := strings.Fields(top.contract.Attrs["callback"]); len(cb) == 2 && cb[0] == prm.Name() {
+				if ct := fr.eng.cf.Contracts[cb[1]]; ct != nil {
+					if cfn := fr.eng.fnByKey[cb[1]]; cfn != nil {
+						fr.cbFree = map[string]*Val{}
+						for _, fv := range cfn.FreeVars {
+							if v, ok := fr.resolveLocal(fv.Name(), nil); ok {
+								fr.cbFree[fv.Name()] = v
+							}
+						}
+						rv := fr.applyContract(ct, cfn, cb[1], args, c.Signature().Results(), nil)
+						fr.cbFree = nil
+						fr.vc.assumed["the callback parameter "+prm.Name()+" of "+fr.vc.fnKey+" is always the closure "+cb[1]+" (its only call site passes it)"] = true
+						return rv
+					}
+				}
+			}
+		}
+	}
 	// call through a function value of unknown identity: a closure may have
 	// captured anything, so everything is havocked
 	fr.vc.abstracted("call through an unknown function value: all heaps havocked")
@@ -318,6 +343,11 @@ func (fr *Frame) applyContract(c *Contract, fn *ssa.Function, key string, args [
 	}
 	if recvIfc != nil {
 		names["self"] = recvIfc
+	}
+	for k, v := range fr.cbFree {
+		if _, has := names[k]; !has {
+			names[k] = v
+		}
 	}
 	if im := fr.eng.ifaceMethod(key); im != nil {
 		sig = im.Type().(*types.Signature)
